@@ -46,10 +46,42 @@ def run(R):
         b = batch(R, k)
         ops += ["MT %d %d" % (n, k)] + b
         plain += b
+    # 0. when the import audit (theorem C08_imports) no longer checks, name the offending call: a concrete static witness
+    early_bad = []
+    if not ok and any("C08_imports" in t for t in badthm):
+        import re, os
+        ld = R.lean_prepare()
+        safe = set(re.findall(r'"([A-Za-z_0-9]+)"', open(os.path.join(ld, "Xc/Thm/C08.lean")).read().split("def mtSafe")[1].split("]")[0]))
+        for fn, lst in re.findall(r'\[([^\]]*)\] /- ([A-Za-z_0-9]+) -/', open(os.path.join(ld, "Xc/Gen/Statics.lean")).read().split("def st_ext")[1].split("def ")[0]):
+            for e in re.findall(r'"([A-Za-z_0-9]+)"', fn):
+                if e not in safe:
+                    early_bad.append(("CALL %s -> %s" % (lst, e), "the library function %s calls %s, which is not on the list of MT-safe external functions "
+                                      "(state inside libc shared between threads); the function is reachable from the re-entrant entry points per theorem C08_imports" % (lst, e), ""))
+    # 1b. DIFFERENT requests per thread, one method at a time, repeated: state shared outside the caller's objects - including state inside libc,
+    #     which ThreadSanitizer does not instrument (a helper that returns a pointer to a static libc buffer: seeded/C08c) - makes a thread's
+    #     transcript differ from the one it produces alone.  Run in the plain (uninstrumented, fast) build so that the threads really overlap.
+    dops = []
+    NT = 8
+    for m in S.METHODS:
+        if m in ("scrypt", "yescrypt", "gost_yescrypt", "sunmd5") and quick: rep = 3
+        else: rep = 40 if quick else 400
+        per = []
+        for t in range(NT):
+            ph = bytes(R.rng.randrange(1, 256) for _ in range(8 + t))
+            per.append([CS.crypt_op("rn" if t % 2 else "r", 0, ph, S.CANON[m])])
+        dops += ["MTD %d 1 %d" % (NT, rep)] + [l for p in per for l in p]
+    for m, pfx in PREFIXES.items():
+        per = []
+        for t in range(NT):
+            rbt = bytes(R.rng.randrange(256) for _ in range(64))
+            per.append(["G %s %s 0 %s 64 192" % ("rn" if t % 2 else "ra", hx(pfx), hx(rbt))])
+        dops += ["MTD %d 1 %d" % (NT, 200 if quick else 2000)] + [l for p in per for l in p]
+    dout = R.run_impl(dops)
+    dmt = [l for l in dout if l.startswith("mt ")]
     # 1. ThreadSanitizer build: N threads execute the same op list on their own objects
     out = R.run_impl(ops, variant="tsan", env={"TSAN_OPTIONS": "halt_on_error=0 exitcode=66 report_signal_unsafe=0"})
     err = R.last_impl_stderr
-    bad = []
+    bad = list(early_bad)
     mt = [l for l in out if l.startswith("mt ")]
     nmt = sum(1 for o in ops if o.startswith("MT "))
     if "WARNING: ThreadSanitizer" in err:
@@ -58,6 +90,17 @@ def run(R):
         bad.append(("MT batch", "ThreadSanitizer reports: " + (m.group(1) if m else "data race") + " | " + (m.group(2)[:600].replace("\n", " / ") if m else ""), err[:1500]))
     if len(mt) != nmt:
         bad.append(("MT batch", "the multi-threaded run did not complete (%d of %d batches; rc=%s)" % (len(mt), nmt, R.last_impl_rc), err[-800:]))
+    heads = [o for o in dops if o.startswith("MTD ")]
+    if len(dmt) != len(heads):
+        bad.append(("MTD batches", "the multi-threaded differential run did not complete (%d of %d; rc=%s)" % (len(dmt), len(heads), R.last_impl_rc), R.last_impl_stderr[-500:]))
+    di = 0
+    for i, o in enumerate(dops):
+        if not o.startswith("MTD "): continue
+        l = dmt[di] if di < len(dmt) else None; di += 1
+        if l and fields(l)["equal"] != "1":
+            nt_, k_, rep_ = [int(x) for x in o.split(" ")[1:4]]
+            bad.append((o + " ; " + " ; ".join(dops[i + 1:i + 1 + nt_ * k_]), "a thread's results differ from what the same calls return when that thread runs alone "
+                        "(thread %s of %d, each with its own request and objects, %d repetitions)" % (fields(l)["firstdiff"], nt_, rep_), l))
     threads = 0
     for l in mt:
         f = fields(l); threads += int(f["threads"])
@@ -73,6 +116,7 @@ def run(R):
     R.cov["evaluations"] = len(plain)
     R.cov["distinct_nontrivial"] = len(set(plain))
     R.cov["thread_runs"] = threads
+    R.cov["differential_batches"] = len(heads)
     R.cov["rule"] = ("a fixed coverage batch (all 16 methods x crypt_r/crypt_rn, gensalt_rn/_ra for every prefix, checksalt, preferred method) by 4 threads, then batches of 5..40 mixed calls (crypt_r, crypt_rn, crypt_gensalt_rn, crypt_gensalt_ra, crypt_checksalt, crypt_preferred_method over all methods) executed by "
                      "2..16 threads concurrently in a ThreadSanitizer build, each thread on its own objects; every thread's transcript is compared with the sequential "
                      "one; the footprint theorem is re-decided over the call graph regenerated from the clang AST")
